@@ -358,7 +358,7 @@ def rand_invalid(rng, ts):
     if c == 7:
         return mk_search(ts, udn, ty, None, addr, cache, [])                       # no LOCATION
     if c == 8:
-        return mk_search(ts, None, ty, loc, addr, cache, [["_udn", udn]])          # literal _udn header, no USN: purges only
+        return mk_search(ts, None, ty, loc, addr, cache, [["_udn", udn]])          # literal _udn header, no USN: ignored, state untouched
     if c == 9:
         return mk_notify(ts, nts, None, ty, loc, addr, cache, [["_UDN", udn]])
     if c == 10:
@@ -439,7 +439,7 @@ CORPUS: List[Dict[str, Any]] = [
     {"ops": [mk_search(0, UDNS[0], TYPES[0], *GOOD_LOCS[0], "max-age=1", []),
              mk_search(0, UDNS[1], TYPES[0], *GOOD_LOCS[1], "max-age=1", []),
              mk_notify(10 * SEC, "ssdp:byebye", UDNS[1], TYPES[0], None, ADDR4B, None, [])]},
-    # literal _udn header without USN: passes the validity test, purges, creates nothing
+    # literal _udn header without USN: passes valid_search_headers, then _see_device ignores it without purging (F02j)
     {"ops": [mk_search(0, UDNS[0], TYPES[0], *GOOD_LOCS[0], "max-age=1", []),
              mk_search(10 * SEC, None, TYPES[0], *GOOD_LOCS[0], "max-age=5", [["_udn", UDNS[1]]])]},
     # header spelling changes between two alives; BOOTID change; volatile header change
